@@ -36,6 +36,7 @@ func runC14(c *Ctx) {
 	c.NotDec = []string{"pruning safety over arbitrary ranges and membership histories (needs database contents)", "value equality of loaded and saved state over histories", "collision freedom of the truncated consensus-params key (params never change in this tree; advisory)"}
 	c.Floors["S"] = 30
 	c.Floors["F"] = 14
+	c14Round3(c)
 
 	// ---- load covers every field ----------------------------------------------------------------------
 	load := c.Fn("kai/state/cstate", "", "loadStateAtHeight")
